@@ -463,7 +463,7 @@ Definition judge (t : tree) : tree :=
           verdict (obs_diffs11 m o) (clauses 11 (spec_c11 i o)) (enc_obs11 m) (tags11 i)
       | _, _, _, _ => malformed
       end
-  | T [T [L 12; topics; sops]; T [u; p; lv; fl; cp]] =>
+  | T [T (L 12 :: topics :: sops :: _); T [u; p; lv; fl; cp]] =>
       match getZs topics, getList dec_sop sops, getList dec_bb u, getList dec_prod p,
             getList dec_msg lv, getList dec_msg fl, getList dec_msg cp with
       | Some topics, Some sops, Some u, Some p, Some lv, Some fl, Some cp =>
